@@ -16,6 +16,8 @@ type Cas struct {
 	// Cache for exists queries since we assume that during the runtime of a build
 	// the cache backend cannot lose a digest (grog does not delete during a build)
 	keyExistsCache sync.Map
+	// Digests known to be present in every tier of the backend (written by this process or checked)
+	keyWrittenCache sync.Map
 }
 
 func NewCas(
@@ -32,8 +34,8 @@ func (c *Cas) GetBackend() backends.CacheBackend {
 
 // Write writes a digest for a given reader
 func (c *Cas) Write(ctx context.Context, digest string, reader io.Reader) error {
-	if exists, err := c.Exists(ctx, digest); exists && err == nil {
-		// If the digest already exists, we don't need to write it again
+	if exists, err := c.existsInAllTiers(ctx, digest); exists && err == nil {
+		// If the digest already exists (in every tier of the backend), we don't need to write it again
 		return nil
 	}
 
@@ -41,8 +43,27 @@ func (c *Cas) Write(ctx context.Context, digest string, reader io.Reader) error 
 	if err == nil {
 		// Mark the digest as existing in case later targets create the same digest
 		c.keyExistsCache.Store(digest, true)
+		c.keyWrittenCache.Store(digest, true)
 	}
 	return err
+}
+
+// existsInAllTiers reports whether a write of the digest can be skipped. For a tiered backend (local cache in front
+// of a remote one) a digest that only sits in the local cache must still be written through: a target result written
+// next would otherwise reference a blob the remote cache does not have.
+func (c *Cas) existsInAllTiers(ctx context.Context, digest string) (bool, error) {
+	if written, ok := c.keyWrittenCache.Load(digest); ok && written.(bool) {
+		return true, nil
+	}
+	tiered, isTiered := c.backend.(backends.TieredCacheBackend)
+	if !isTiered {
+		return c.Exists(ctx, digest)
+	}
+	exists, err := tiered.ExistsInAllTiers(ctx, "cas", digest)
+	if err == nil && exists {
+		c.keyWrittenCache.Store(digest, true)
+	}
+	return exists, err
 }
 
 // WriteBytes writes a digest for a given reader
